@@ -10,6 +10,7 @@ import (
 	action_gov "github.com/Oneledger/protocol/action/governance"
 	"github.com/Oneledger/protocol/data/balance"
 	"github.com/Oneledger/protocol/data/governance"
+	"github.com/Oneledger/protocol/identity"
 	sv "github.com/Oneledger/protocol/zz_sv"
 )
 
@@ -47,6 +48,23 @@ func svPreGov(pre *svPropPre) func(e *svEnv) {
 				l.addMirror("propFunds:"+tag+":total", "escrow", "OLT", pm.ProposalFund.GetCurrentFundsForProposal(id).BigInt())
 			}
 		})
+		if !svLean {
+			// validators: A is elected (active status, power 5); B has a staked record but is
+			// not elected (inactive status, power 7): only A belongs in a voting snapshot
+			vs := ctx.validators.WithState(ctx.deliver)
+			es := ctx.evidenceStore.WithState(ctx.deliver)
+			for i, pw := range []int64{5, 7} {
+				pt := svParty_(i)
+				v := identity.NewValidator(pt.Addr, pt.Addr, pt.Pub, pt.Pub, *balance.NewAmount(pw), "n"+svPartyName(i))
+				v.Power = pw
+				if err := vs.Set(*v); err != nil {
+					sv.Unreachable("validator")
+				}
+				if err := es.SetValidatorStatus(pt.Addr, i == 0, 1); err != nil {
+					sv.Unreachable("validator status")
+				}
+			}
+		}
 		nwhere := 9
 		if svLean {
 			nwhere = 7 // the generic second-batch harnesses leave out the passed / finalised stages
@@ -161,7 +179,7 @@ func svPropCopies(e *svEnv, id governance.ProposalID) int {
 //
 // sv:bounds proposal absent, or funding / voting in the active store, or cancelled / under-funded / expired in voting / voted down in the failed store, or voted yes in the passed store, or finalised (funds distributed) in the finalized store; arbitrary proposer among 2 parties, funding goal, funding deadline (any relation to the block height 20), per-funder contributions (present or absent); kind a choice; actor (proposer / funder field, who signs) any party, beneficiary any party; amounts any integer in {OLT, unregistered}; the shared proposal store's selected stage prefix (in-memory residue) active or failed; mempool-admitted regime
 // sv:outside vote, expire and finalise (the tally and the fund distribution are not yet encoded); configuration-update proposals; histories
-// sv:goal a proposal has a record in one stage store only and a completed one keeps its store, status and outcome whatever the transaction; stage moves only forward: fund never moves a proposal that is not funding or is past its deadline, and moves it to voting exactly when the contributions reach the goal; cancel only by the proposer, only while funding and before the deadline, moves it to the failed store as cancelled; withdraw only from a cancelled or under-funded (deadline passed, goal not met) proposal, at most the funder's own contribution, debiting the escrow by exactly what the beneficiary receives; the total record stays the sum of the contributions; create only for an id without a record in any stage store, escrowing exactly the initial funding
+// sv:goal a proposal has a record in one stage store only and a completed one keeps its store, status and outcome whatever the transaction; stage moves only forward: fund never moves a proposal that is not funding or is past its deadline, and moves it to voting exactly when the contributions reach the goal, and the snapshot then taken holds exactly the elected validators (A, power 5; B has a staked record but an inactive status) with no opinion; cancel only by the proposer, only while funding and before the deadline, moves it to the failed store as cancelled; withdraw only from a cancelled or under-funded (deadline passed, goal not met) proposal, at most the funder's own contribution, debiting the escrow by exactly what the beneficiary receives; the total record stays the sum of the contributions; create only for an id without a record in any stage store, escrowing exactly the initial funding
 func SV_C14_funds_and_stage() {
 	svCurrencyLimit = 2
 	pre := &svPropPre{}
@@ -212,6 +230,19 @@ func SV_C14_funds_and_stage() {
 		reached := r.after.get("propFunds:1:total").Cmp(pre.goal) >= 0
 		if p1 != nil {
 			sv.Assert((p1.Status == governance.ProposalStatusVoting) == reached && st1 == governance.ProposalStateActive, "voting-begins-exactly-when-the-goal-is-met")
+			if p1.Status == governance.ProposalStatusVoting && !svLean {
+				// the snapshot taken when voting begins: the elected validators, each with its power and no
+				// opinion (the vote store lists committed records only: the block is committed first)
+				svCommitBlock(e.app)
+				svOpenBlock(e.app, e.height+1)
+				pm := e.app.Context.proposalMaster.WithState(e.app.Context.deliver)
+				_, votes, verr := pm.ProposalVote.GetVotesByID(svPropID)
+				sv.Assert(verr == nil && len(votes) == 1, "the-voting-snapshot-holds-exactly-the-elected-validators")
+				for _, v := range votes {
+					sv.Assert(v.Validator.Equal(svParty_(0).Addr) && v.Power == 5 && v.Opinion == governance.OPIN_UNKNOWN, "the-voting-snapshot-holds-exactly-the-elected-validators")
+				}
+				sv.Cover(true, "snapshot-taken")
+			}
 		}
 		sv.Cover(reached, "goal-reached")
 		sv.Cover(!reached, "funded-below-goal")
